@@ -16,6 +16,13 @@
    "fix:" commit (the main model), [unfixed_modes] the table path before it.  The step function is
    parametrised by the table so that the same machine runs both.
 
+   Owners (Alias/Heap.v): Client (what the client may overwrite: arguments it passed, values it got,
+   a batch after Write returned), ClientBatch (the buffer of a Batch the client is still filling),
+   DB arena / iterator buffer / pooled batch / block in use, Pool, Cache.  The client action
+   CScribble writes through any buffer the client holds, up to the end of the backing array
+   (its capacity), whoever owns it: that a client can only ever reach client-owned memory is the
+   theorem, not a premise.
+
    Not modelled (honest limits): Go's garbage collector and reallocation by append (a location is
    never freed or moved), sequence numbers (lists are kept newest first), backward iteration,
    snapshots (Snapshot.Get is DB.get), the journal, concurrency (one call at a time; the
